@@ -233,6 +233,9 @@ def selector_tables(prog, ev, rep, rid):
                     rep.unrecognised(rid, key, where, "no unique arm for Rule::%s" % rule); continue
                 body = t.a[1][sel[0][0]][2]
                 built = sorted({x.a[1] for x in subterms(body) if x.k == "adt" and x.a[0] == M + "Selector"})
+                if not built:
+                    rep.unrecognised(rid, key, where, "no Selector construction visible in the arm for Rule::%s (built through a conversion?): %s" % (rule, str(body)[:120]))
+                    continue
                 rep.check(built == [want], rid, key, where, "Rule::%s -> Selector::%s" % (rule, want),
                           "the arm for Rule::%s builds %s: a `%s` of the query is (for some spellings) evaluated as another selector kind" % (
                               rule, ["Selector::" + b for b in built] or "no selector", rule.replace("_", " ")))
